@@ -1,5 +1,6 @@
 import DendroModel.Model.C04
 import DendroModel.Props.C01
+import DendroModel.Theory.C04Bridge
 import Mathlib.Data.Finset.SymmDiff
 import Mathlib.Data.Finset.Card
 import Mathlib.Data.List.Dedup
@@ -50,7 +51,11 @@ theorem one_sided (a b : List Int) :
 /-! ### split → length maps -/
 def keys (m : List (Int × EdgeRec)) : List Int := m.map (·.1)
 
-/-- the length a tree assigns to a split: that of its edge, `None` as 0; 0 when the tree lacks the split -/
+/-- the length a tree assigns to a split: that of its edge; 0 when the tree lacks the split.
+    Totalisation, stated explicitly: a missing length (`None`) counts as 0 here (`getD 0`).  That is what the code does where it
+    does not refuse — on the seed edge and on a split the other tree lacks (`treecompare._get_length_diffs`: `elen = 0`) — so in
+    `wrf_eq_l1` / `euclidSq_eq_l2sq` "L1/L2 norm" means: of the length functions with `None` read as 0; on a shared non-root split
+    a `None` never reaches the sum because the pair is refused (`defined_symm`). -/
 def lenAt (m : List (Int × EdgeRec)) (s : Int) : Rat :=
   match lookup m s with
   | some e => e.len.getD 0
@@ -334,7 +339,8 @@ theorem rf_congr (a a' b b' : List Int) (ha : ∀ x, x ∈ a ↔ x ∈ a') (hb :
   have e2 : b.toFinset = b'.toFinset := by ext x; simp [hb x]
   rw [rf_eq_card_symmDiff, rf_eq_card_symmDiff, e1, e2]
 
-/-- `find_missing_bipartitions` lists exactly the reference splits absent from the comparison tree -/
+/-- `find_missing_bipartitions` lists exactly the reference splits absent from the comparison tree (little more than the
+    definition of `missing` as a filter; kept as the membership form the other theorems use) -/
 theorem missing_spec (ref cmp : List Int) (x : Int) : x ∈ missing ref cmp ↔ x ∈ ref ∧ x ∉ cmp := by
   simp [missing]
 
@@ -451,4 +457,361 @@ theorem euclid_triangle (m1 m2 m3 : List (Int × EdgeRec)) (hn1 : (keys m1).Nodu
   have := minkowski K (fun k => ((lenAt m1 k : ℚ) : ℝ) - (lenAt m2 k : ℝ)) (fun k => ((lenAt m2 k : ℚ) : ℝ) - (lenAt m3 k : ℝ))
   simpa using this
 
+end DendroModel.C04
+
+/-! ## strengthening after audit H: bridges to the driver's `edgeRecs`, Euclid corollaries, child-order invariance -/
+namespace DendroModel.C04.Aux
+open DendroModel DendroModel.C04
+
+theorem refused_congr_left {m1 m1' m2 : List (Int × EdgeRec)} (h : ∀ k, lookup m1 k = lookup m1' k) :
+    Refused m1 m2 ↔ Refused m1' m2 := by
+  constructor
+  · rintro ⟨k, e1, e2, h1, h2, hb⟩; exact ⟨k, e1, e2, by rw [← h k]; exact h1, h2, hb⟩
+  · rintro ⟨k, e1, e2, h1, h2, hb⟩; exact ⟨k, e1, e2, by rw [h k]; exact h1, h2, hb⟩
+
+theorem keys_of_lookup_eq {m1 m1' : List (Int × EdgeRec)} (h : ∀ k, lookup m1 k = lookup m1' k) (x : Int) :
+    x ∈ keys m1 ↔ x ∈ keys m1' := by
+  have a := lookup_none_iff m1 x
+  have b := lookup_none_iff m1' x
+  rw [h x] at a
+  constructor
+  · intro hx; by_contra hn; exact (a.mp (b.mpr hn)) hx
+  · intro hx; by_contra hn; exact (b.mp (a.mpr hn)) hx
+
+theorem lenAt_of_lookup_eq {m1 m1' : List (Int × EdgeRec)} (h : ∀ k, lookup m1 k = lookup m1' k) (x : Int) :
+    lenAt m1 x = lenAt m1' x := by unfold lenAt; rw [h x]
+
+/-- both distances are functions of the first tree's split → edge *lookup function* only (not of the order of the map) -/
+theorem lengthDiffs_sum_congr_left (g : Rat → Rat → Rat) (m1 m1' m2 : List (Int × EdgeRec))
+    (hn1 : (keys m1).Nodup) (hn1' : (keys m1').Nodup) (hn2 : (keys m2).Nodup) (h : ∀ k, lookup m1 k = lookup m1' k) :
+    (lengthDiffs m1 m2).map (fun ds => (ds.map (fun p => g p.1 p.2)).sum)
+      = (lengthDiffs m1' m2).map (fun ds => (ds.map (fun p => g p.1 p.2)).sum) := by
+  cases h1 : lengthDiffs m1 m2 with
+  | none =>
+    have : lengthDiffs m1' m2 = none :=
+      (lengthDiffs_none_iff m1' m2 hn1').mpr ((refused_congr_left h).mp ((lengthDiffs_none_iff m1 m2 hn1).mp h1))
+    rw [this]
+  | some ds =>
+    cases h2 : lengthDiffs m1' m2 with
+    | none =>
+      exfalso
+      have := (lengthDiffs_none_iff m1 m2 hn1).mpr ((refused_congr_left h).mpr ((lengthDiffs_none_iff m1' m2 hn1').mp h2))
+      rw [h1] at this; cases this
+    | some ds' =>
+      simp only [Option.map_some]
+      rw [sum_two_passes m1 m2 hn1 hn2 g ds h1, sum_two_passes m1' m2 hn1' hn2 g ds' h2]
+      have hk : (keys m1).toFinset = (keys m1').toFinset := by ext x; simp [keys_of_lookup_eq h x]
+      rw [hk]
+      congr 1
+      apply Finset.sum_congr rfl; intro k _; rw [lenAt_of_lookup_eq h k]
+
+theorem wrf_congr_lookup (m1 m1' m2 : List (Int × EdgeRec))
+    (hn1 : (keys m1).Nodup) (hn1' : (keys m1').Nodup) (hn2 : (keys m2).Nodup) (h : ∀ k, lookup m1 k = lookup m1' k) :
+    wrf m1 m2 = wrf m1' m2 :=
+  lengthDiffs_sum_congr_left (fun a b => absR (a - b)) m1 m1' m2 hn1 hn1' hn2 h
+
+theorem euclidSq_congr_lookup (m1 m1' m2 : List (Int × EdgeRec))
+    (hn1 : (keys m1).Nodup) (hn1' : (keys m1').Nodup) (hn2 : (keys m2).Nodup) (h : ∀ k, lookup m1 k = lookup m1' k) :
+    euclidSq m1 m2 = euclidSq m1' m2 :=
+  lengthDiffs_sum_congr_left (fun a b => (a - b) * (a - b)) m1 m1' m2 hn1 hn1' hn2 h
+
+/-- sample trees for the non-vacuity examples: `((t0:1, t1:2):1/2, t2:3)` drawn in two child orders, and a different topology -/
+def exA : T := .node 0 none none none [.node 1 none (some ⟨1, 2⟩) none [.node 2 (some 0) (some ⟨1, 1⟩) none [], .node 3 (some 1) (some ⟨2, 1⟩) none []],
+  .node 4 (some 2) (some ⟨3, 1⟩) none []]
+def exB : T := .node 0 none none none [.node 4 (some 2) (some ⟨3, 1⟩) none [],
+  .node 1 none (some ⟨1, 2⟩) none [.node 2 (some 0) (some ⟨1, 1⟩) none [], .node 3 (some 1) (some ⟨2, 1⟩) none []]]
+def exC : T := .node 0 none none none [.node 1 none (some ⟨1, 2⟩) none [.node 2 (some 0) (some ⟨1, 1⟩) none [], .node 3 (some 2) (some ⟨2, 1⟩) none []],
+  .node 4 (some 1) (some ⟨3, 1⟩) none []]
+
+theorem exAB : CIso exA exB := CIso.swap 0 none none none [] _ _ []
+
+end DendroModel.C04.Aux
+
+namespace DendroModel.C04
+open DendroModel DendroModel.C04.Aux
+
+/-! ### the split lists the driver feeds to `fpfn` / `missing` / `edgeMap` -/
+
+/-- the split list of `edgeRecs` (what the driver runs) is the split column of `C01.encode` with default flags -/
+theorem edgeRecs_splits_eq_encode (r : Option Bool) (t : T) :
+    (edgeRecs r t).map (·.split) = (C01.encode r true true t).map (·.2) := edgeRecs_splits r t
+
+/-- … and on a rooted tree: the leafset masks of the tree after unifurcation suppression, in post-order -/
+theorem edgeRecs_splits_rooted_eq_masks (t : T) :
+    (edgeRecs (some true) t).map (·.split) = (T.masksPost (T.sup t)).map Int.ofNat := edgeRecs_splits_rooted t
+
+example : (edgeRecs (some true) exA).map (·.split) = [1, 2, 3, 4, 7] := by decide
+
+/-- **RF is zero exactly between re-drawings (rooted)**: on the split lists the driver computes for two well-formed rooted
+    trees, the symmetric-difference distance is 0 iff the trees are the same topology up to child order once
+    unifurcations are suppressed.  (composition of `rf_zero_iff`, the `edgeRecs` bridge, `C01.suppress_keeps_masks`
+    and `C01.rooted_splits_iff_topology`) -/
+theorem rf_zero_iff_topology (t u : T)
+    (hgt : Hier.Good (T.toH t)) (ht0 : T.mask t ≠ 0) (hgu : Hier.Good (T.toH u)) (hu0 : T.mask u ≠ 0) :
+    rf ((edgeRecs (some true) t).map (·.split)) ((edgeRecs (some true) u).map (·.split)) = 0
+      ↔ Hier.Iso (Hier.sup (T.toH t)) (Hier.sup (T.toH u)) := by
+  rw [rf_zero_iff, edgeRecs_splits_rooted, edgeRecs_splits_rooted, ← C01.rooted_splits_iff_topology t u hgt ht0 hgu hu0]
+  have key : ∀ (v : T) (x : Nat), Int.ofNat x ∈ (T.masksPost (T.sup v)).map Int.ofNat ↔ x ∈ T.masksPost v := by
+    intro v x
+    rw [← (C01.suppress_keeps_masks v).2.2 x]
+    simp only [List.mem_map]
+    constructor
+    · rintro ⟨m, hm, he⟩; rw [← Int.ofNat.inj he]; exact hm
+    · intro hx; exact ⟨x, hx, rfl⟩
+  constructor
+  · intro h x; rw [← key t x, ← key u x]; exact h _
+  · intro h y
+    constructor
+    · intro hy
+      obtain ⟨m, _, rfl⟩ := List.mem_map.mp hy
+      exact (key u m).mpr ((h m).mp ((key t m).mp hy))
+    · intro hy
+      obtain ⟨m, _, rfl⟩ := List.mem_map.mp hy
+      exact (key t m).mpr ((h m).mpr ((key u m).mp hy))
+
+example : Hier.Good (T.toH exA) ∧ T.mask exA ≠ 0 ∧ Hier.Good (T.toH exB) ∧ T.mask exB ≠ 0 := by
+  simp [exA, exB, T.toH, T.toHL, Hier.Good, Hier.GoodL, Hier.mask, Hier.maskL, T.mask, T.maskL]
+example : rf ((edgeRecs (some true) exA).map (·.split)) ((edgeRecs (some true) exB).map (·.split)) = 0 := by decide
+example : rf ((edgeRecs (some true) exA).map (·.split)) ((edgeRecs (some true) exC).map (·.split)) = 2 := by decide
+
+/-- the pair `(false positives, false negatives)` depends on the two split *sets* only -/
+theorem fpfn_congr (a a' b b' : List Int) (ha : ∀ x, x ∈ a ↔ x ∈ a') (hb : ∀ x, x ∈ b ↔ x ∈ b') : fpfn a b = fpfn a' b' := by
+  have e1 : a.toFinset = a'.toFinset := by ext x; simp [ha x]
+  have e2 : b.toFinset = b'.toFinset := by ext x; simp [hb x]
+  apply Prod.ext
+  · rw [(fpfn_spec a b).1, (fpfn_spec a' b').1, e1, e2]
+  · rw [(fpfn_spec a b).2, (fpfn_spec a' b').2, e1, e2]
+
+/-- **re-drawing a rooted tree changes no unweighted distance**: if `t'` is `t` up to child order and unifurcations, then
+    false positives / negatives (hence RF) against any third tree `u` (of any rooting state) are the same for `t` and
+    `t'`, in both argument positions, and `find_missing_bipartitions` lists the same splits -/
+theorem fpfn_redraw_rooted (t t' u : T) (r : Option Bool)
+    (hgt : Hier.Good (T.toH t)) (ht0 : T.mask t ≠ 0) (hgt' : Hier.Good (T.toH t')) (ht0' : T.mask t' ≠ 0)
+    (h : Hier.Iso (Hier.sup (T.toH t)) (Hier.sup (T.toH t'))) :
+    fpfn ((edgeRecs (some true) t).map (·.split)) ((edgeRecs r u).map (·.split))
+        = fpfn ((edgeRecs (some true) t').map (·.split)) ((edgeRecs r u).map (·.split))
+    ∧ fpfn ((edgeRecs r u).map (·.split)) ((edgeRecs (some true) t).map (·.split))
+        = fpfn ((edgeRecs r u).map (·.split)) ((edgeRecs (some true) t').map (·.split))
+    ∧ (∀ x, x ∈ missing ((edgeRecs (some true) t).map (·.split)) ((edgeRecs r u).map (·.split))
+          ↔ x ∈ missing ((edgeRecs (some true) t').map (·.split)) ((edgeRecs r u).map (·.split))) := by
+  have hs := (rf_zero_iff _ _).mp ((rf_zero_iff_topology t t' hgt ht0 hgt' ht0').mpr h)
+  refine ⟨fpfn_congr _ _ _ _ hs (fun _ => Iff.rfl), fpfn_congr _ _ _ _ (fun _ => Iff.rfl) hs, ?_⟩
+  intro x; rw [missing_spec, missing_spec, hs x]
+
+/-! ### Euclidean distance: the corollaries that `wrf` already had -/
+
+/-- symmetric in value and definedness -/
+theorem euclidSq_symm (m1 m2 : List (Int × EdgeRec)) (hn1 : (keys m1).Nodup) (hn2 : (keys m2).Nodup) :
+    euclidSq m1 m2 = euclidSq m2 m1 := by
+  have hd := (defined_symm m1 m2 hn1 hn2).2.1
+  cases h12 : euclidSq m1 m2 with
+  | none =>
+    cases h21 : euclidSq m2 m1 with
+    | none => rfl
+    | some w => rw [h12, h21] at hd; simp at hd
+  | some w =>
+    cases h21 : euclidSq m2 m1 with
+    | none => rw [h12, h21] at hd; simp at hd
+    | some w' =>
+      rw [euclidSq_eq_l2sq m1 m2 hn1 hn2 w h12, euclidSq_eq_l2sq m2 m1 hn2 hn1 w' h21, Finset.union_comm]
+      congr 1
+      apply Finset.sum_congr rfl; intro k _; ring
+
+/-- zero on equal inputs (whenever defined) -/
+theorem euclidSq_self (m : List (Int × EdgeRec)) (hn : (keys m).Nodup) (w : Rat) (h : euclidSq m m = some w) : w = 0 := by
+  rw [euclidSq_eq_l2sq m m hn hn w h]; simp
+
+/-- depends on the trees only through their split → length functions -/
+theorem euclidSq_congr (m1 m1' m2 : List (Int × EdgeRec)) (hn1 : (keys m1).Nodup) (hn1' : (keys m1').Nodup)
+    (hn2 : (keys m2).Nodup) (hk : ∀ x, x ∈ keys m1 ↔ x ∈ keys m1') (hl : ∀ x, lenAt m1 x = lenAt m1' x)
+    (w w' : Rat) (h : euclidSq m1 m2 = some w) (h' : euclidSq m1' m2 = some w') : w = w' := by
+  rw [euclidSq_eq_l2sq m1 m2 hn1 hn2 w h, euclidSq_eq_l2sq m1' m2 hn1' hn2 w' h']
+  have : (keys m1).toFinset = (keys m1').toFinset := by ext x; simp [hk x]
+  rw [this]
+  apply Finset.sum_congr rfl; intro k _; rw [hl k]
+
+/-- identity of indiscernibles, as far as it holds: a defined distance is 0 iff the two trees assign the same length to
+    every split (a split carried only by zero-length / length-less edges is indistinguishable from an absent one) -/
+theorem dist_zero_iff (m1 m2 : List (Int × EdgeRec)) (hn1 : (keys m1).Nodup) (hn2 : (keys m2).Nodup) :
+    (∀ w, wrf m1 m2 = some w → (w = 0 ↔ ∀ k, lenAt m1 k = lenAt m2 k))
+    ∧ (∀ w, euclidSq m1 m2 = some w → (w = 0 ↔ ∀ k, lenAt m1 k = lenAt m2 k)) := by
+  have out : ∀ k, k ∉ (keys m1).toFinset ∪ (keys m2).toFinset → lenAt m1 k = lenAt m2 k := by
+    intro k hk
+    simp only [Finset.mem_union, List.mem_toFinset, not_or] at hk
+    rw [lenAt_zero_of_not_mem m1 k hk.1, lenAt_zero_of_not_mem m2 k hk.2]
+  constructor
+  · intro w h
+    rw [wrf_eq_l1 m1 m2 hn1 hn2 w h, Finset.sum_eq_zero_iff_of_nonneg (fun _ _ => abs_nonneg _)]
+    constructor
+    · intro hz k
+      by_cases hk : k ∈ (keys m1).toFinset ∪ (keys m2).toFinset
+      · exact sub_eq_zero.mp (abs_eq_zero.mp (hz k hk))
+      · exact out k hk
+    · intro he k _; rw [he k]; simp
+  · intro w h
+    rw [euclidSq_eq_l2sq m1 m2 hn1 hn2 w h, Finset.sum_eq_zero_iff_of_nonneg (fun _ _ => sq_nonneg _)]
+    constructor
+    · intro hz k
+      by_cases hk : k ∈ (keys m1).toFinset ∪ (keys m2).toFinset
+      · exact sub_eq_zero.mp (pow_eq_zero_iff (two_ne_zero) |>.mp (hz k hk))
+      · exact out k hk
+    · intro he k _; rw [he k]; simp
+
+/-- link to the square root the code returns: the squared distance the model computes is non-negative, so `euclidean_distance`
+    is its genuine square root `√w`; `√w = 0 ↔ w = 0`, hence the zero / symmetry / congruence theorems about `euclidSq`
+    transfer verbatim to the distance itself (the triangle inequality is `euclid_triangle`, stated on the roots) -/
+theorem euclidSq_nonneg (m1 m2 : List (Int × EdgeRec)) (hn1 : (keys m1).Nodup) (hn2 : (keys m2).Nodup) (w : Rat)
+    (h : euclidSq m1 m2 = some w) : 0 ≤ w ∧ (Real.sqrt (w : ℝ) = 0 ↔ w = 0) := by
+  have h0 : 0 ≤ w := by
+    rw [euclidSq_eq_l2sq m1 m2 hn1 hn2 w h]; exact Finset.sum_nonneg (fun _ _ => sq_nonneg _)
+  refine ⟨h0, ?_⟩
+  rw [Real.sqrt_eq_zero (by exact_mod_cast h0), Rat.cast_eq_zero]
+example : (euclidSq (edgeMap (edgeRecs (some true) exA)) (edgeMap (edgeRecs (some true) exC))).isSome = true := by decide
+
+example : (keys (edgeMap (edgeRecs (some true) exA))).Nodup := (edgeMap_keys _).1
+example : (wrf (edgeMap (edgeRecs (some true) exA)) (edgeMap (edgeRecs (some true) exC))).isSome = true := by decide
+
+/-! ### child order -/
+
+/-- **reordering children changes no unweighted distance** (any rooting state; `_partial`: for a tree that is not rooted the
+    seed must not be bifurcating, i.e. the case in which `encode_bipartitions` collapses the basal bifurcation — and which
+    child it keeps depends on the order — is not covered; moving the seed is not covered either) -/
+theorem fpfn_child_order_partial (r r2 : Option Bool) (t t' u : T) (h : CIso t t') (hr : r = some true ∨ t.cs.length ≠ 2) :
+    fpfn ((edgeRecs r t).map (·.split)) ((edgeRecs r2 u).map (·.split))
+        = fpfn ((edgeRecs r t').map (·.split)) ((edgeRecs r2 u).map (·.split))
+    ∧ fpfn ((edgeRecs r2 u).map (·.split)) ((edgeRecs r t).map (·.split))
+        = fpfn ((edgeRecs r2 u).map (·.split)) ((edgeRecs r t').map (·.split))
+    ∧ rf ((edgeRecs r t).map (·.split)) ((edgeRecs r t').map (·.split)) = 0
+    ∧ (∀ x, x ∈ missing ((edgeRecs r t).map (·.split)) ((edgeRecs r2 u).map (·.split))
+          ↔ x ∈ missing ((edgeRecs r t').map (·.split)) ((edgeRecs r2 u).map (·.split))) := by
+  have hs : ∀ x, x ∈ (edgeRecs r t).map (·.split) ↔ x ∈ (edgeRecs r t').map (·.split) :=
+    fun x => ((ciso_edgeRecs h r hr).map _).mem_iff
+  refine ⟨fpfn_congr _ _ _ _ hs (fun _ => Iff.rfl), fpfn_congr _ _ _ _ (fun _ => Iff.rfl) hs, (rf_zero_iff _ _).mpr hs, ?_⟩
+  intro x; rw [missing_spec, missing_spec, hs x]
+
+/-- **reordering children changes neither weighted RF nor the Euclidean distance, nor whether they are defined**, against
+    any third tree and in both argument positions, and both are 0 (when defined) between the two drawings — provided the
+    tree's splits are pairwise distinct (`hn`; otherwise the split → edge map keeps only the last edge of a repeated split
+    and the value does depend on the order: the known finding `basal-bifurcation-survives-encoding`).
+    `_partial`: as for `fpfn_child_order_partial`, a not-rooted tree with a bifurcating seed and seed moves are not covered;
+    nor is the insertion of unifurcations (which needs `Frac` addition to be exact, a fact about `addLen` not proved here). -/
+theorem dist_child_order_partial (r r2 : Option Bool) (t t' u : T) (h : CIso t t') (hr : r = some true ∨ t.cs.length ≠ 2)
+    (hn : ((edgeRecs r t).map (·.split)).Nodup) :
+    wrf (edgeMap (edgeRecs r t)) (edgeMap (edgeRecs r2 u)) = wrf (edgeMap (edgeRecs r t')) (edgeMap (edgeRecs r2 u))
+    ∧ wrf (edgeMap (edgeRecs r2 u)) (edgeMap (edgeRecs r t)) = wrf (edgeMap (edgeRecs r2 u)) (edgeMap (edgeRecs r t'))
+    ∧ euclidSq (edgeMap (edgeRecs r t)) (edgeMap (edgeRecs r2 u)) = euclidSq (edgeMap (edgeRecs r t')) (edgeMap (edgeRecs r2 u))
+    ∧ euclidSq (edgeMap (edgeRecs r2 u)) (edgeMap (edgeRecs r t)) = euclidSq (edgeMap (edgeRecs r2 u)) (edgeMap (edgeRecs r t'))
+    ∧ (∀ w, wrf (edgeMap (edgeRecs r t)) (edgeMap (edgeRecs r t')) = some w → w = 0)
+    ∧ (∀ w, euclidSq (edgeMap (edgeRecs r t)) (edgeMap (edgeRecs r t')) = some w → w = 0) := by
+  have hl := lookup_edgeMap_perm (ciso_edgeRecs h r hr) hn
+  have n1 := nodup_edgeMap (edgeRecs r t)
+  have n1' := nodup_edgeMap (edgeRecs r t')
+  have n2 := nodup_edgeMap (edgeRecs r2 u)
+  have w1 := wrf_congr_lookup _ _ (edgeMap (edgeRecs r2 u)) n1 n1' n2 hl
+  have e1 := euclidSq_congr_lookup _ _ (edgeMap (edgeRecs r2 u)) n1 n1' n2 hl
+  refine ⟨w1, ?_, e1, ?_, ?_, ?_⟩
+  · rw [wrf_symm _ _ n2 n1, w1, wrf_symm _ _ n1' n2]
+  · rw [euclidSq_symm _ _ n2 n1, e1, euclidSq_symm _ _ n1' n2]
+  · intro w hw
+    rw [wrf_symm _ _ n1 n1', ← wrf_congr_lookup _ _ (edgeMap (edgeRecs r t)) n1 n1' n1 hl] at hw
+    exact wrf_self _ n1 w hw
+  · intro w hw
+    rw [euclidSq_symm _ _ n1 n1', ← euclidSq_congr_lookup _ _ (edgeMap (edgeRecs r t)) n1 n1' n1 hl] at hw
+    exact euclidSq_self _ n1 w hw
+
+example : CIso exA exB ∧ ((edgeRecs (some true) exA).map (·.split)).Nodup := ⟨exAB, by decide⟩
+example : CIso exA exB ∧ ((some false : Option Bool) = some true ∨ exA.cs.length ≠ 2 → False) := ⟨exAB, by decide⟩
+
+end DendroModel.C04
+
+namespace DendroModel.C04.Aux
+open DendroModel DendroModel.C04
+
+/-- the splits the driver lists for a tree that is not rooted: every clade of the encoded tree, normalised within the
+    tree's own leafset on its lowest bit -/
+theorem splits_unrooted_mem (r : Option Bool) (hr : r ≠ some true) (t : T) (x : Int) :
+    x ∈ (edgeRecs r t).map (·.split) ↔
+      ∃ m ∈ Hier.clades (T.toH (C01.encodeTree r true true t)),
+        x = ((Hier.norm (Hier.mask (T.toH (C01.encodeTree r true true t)))
+              (Lsb.lsb (Hier.mask (T.toH (C01.encodeTree r true true t)))) m : Nat) : Int) := by
+  have hb : (r == some true) = false := by
+    cases r with
+    | none => rfl
+    | some b => cases b <;> simp_all
+  rw [edgeRecs_splits]
+  simp only [C01.encode, List.map_map, List.mem_map, Function.comp, hb, C01.split_spec, C01.Aux.toH_mask]
+  constructor
+  · rintro ⟨m, hm, rfl⟩; exact ⟨m, (C01.Aux.toH_clades _ m).mpr hm, by simp⟩
+  · rintro ⟨m, hm, rfl⟩; exact ⟨m, (C01.Aux.toH_clades _ m).mp hm, by simp⟩
+
+end DendroModel.C04.Aux
+
+namespace DendroModel.C04
+open DendroModel DendroModel.C04.Aux
+
+/-- **moving the seed of an unrooted tree by one edge keeps RF at 0** (`_partial`: one inversion step, stated on the
+    mask-labelled views of the two encoded trees; `reseed_at` iterates this step.  Not covered: the composition over a
+    path of inversions, and the weighted distances) — the driver's split lists of two trees that are not rooted and
+    whose encoded forms differ by making child `node ds` of the seed the new seed have symmetric difference 0 -/
+theorem rf_zero_seed_move_partial (r r' : Option Bool) (hr : r ≠ some true) (hr' : r' ≠ some true) (t t' : T)
+    (pre ds post : List Hier.T)
+    (ht : T.toH (C01.encodeTree r true true t) = .node (pre ++ .node ds :: post))
+    (ht' : T.toH (C01.encodeTree r' true true t') = Hier.invertAt pre ds post)
+    (hg : Hier.GoodL (pre ++ .node ds :: post)) :
+    rf ((edgeRecs r t).map (·.split)) ((edgeRecs r' t').map (·.split)) = 0 := by
+  rw [rf_zero_iff]
+  intro x
+  rw [splits_unrooted_mem r hr, splits_unrooted_mem r' hr', ht, ht']
+  set L := Hier.maskL (pre ++ .node ds :: post) with hL
+  have hL' : Hier.mask (Hier.invertAt pre ds post) = L := by
+    simp only [Hier.invertAt, Hier.mask]; exact Hier.maskL_invert pre ds post
+  have hLm : Hier.mask (.node (pre ++ .node ds :: post)) = L := by simp [Hier.mask, hL]
+  rw [hL', hLm]
+  have hpos : 0 < L := by
+    have hmem : Hier.T.node ds ∈ pre ++ .node ds :: post := by simp
+    have h0 := (Hier.goodL_mem hg hmem).2
+    have hsub := Hier.bits_maskL_subset_of_mem hmem
+    rcases Nat.eq_zero_or_pos L with hz | hp
+    · exfalso; apply h0; apply Hier.bits_inj
+      rw [Hier.bits_zero]; rw [← hL, hz, Hier.bits_zero] at hsub; exact Set.subset_empty_iff.mp hsub
+    · exact hp
+  obtain ⟨k, hk, hkL, _⟩ := C01.lsb_spec L hpos
+  have hlo : Hier.bits (Lsb.lsb L) ⊆ Hier.bits L := by
+    rw [hk, Hier.bits_shift]; intro i hi; rw [Set.mem_singleton_iff] at hi; subst hi; exact hkL
+  have hsingle : ∀ a, Hier.bits (Lsb.lsb L) ⊆ Hier.bits a ∨ Disjoint (Hier.bits (Lsb.lsb L)) (Hier.bits a) := by
+    intro a
+    rw [hk, Hier.bits_shift]
+    by_cases h : k ∈ Hier.bits a
+    · left; intro i hi; rw [Set.mem_singleton_iff] at hi; subst hi; exact h
+    · right; exact Set.disjoint_singleton_left.mpr h
+  have hne : Lsb.lsb L ≠ 0 := by rw [hk]; exact Hier.shift_ne_zero k
+  have hinv := Hier.usplits_invert (Lsb.lsb L) pre ds post hg hlo hsingle hne
+  simp only [Hier.usplits, Hier.invertAt, Hier.maskL_invert, ← hL, List.mem_map] at hinv
+  simp only [Hier.clades, Hier.invertAt, Hier.maskL_invert, ← hL, List.mem_cons, exists_eq_or_imp]
+  constructor
+  · rintro (h | ⟨m, hm, rfl⟩)
+    · exact Or.inl h
+    · obtain ⟨a, ha, hea⟩ := (hinv _).mpr ⟨m, hm, rfl⟩
+      exact Or.inr ⟨a, ha, by rw [hea]⟩
+  · rintro (h | ⟨m, hm, rfl⟩)
+    · exact Or.inl h
+    · obtain ⟨a, ha, hea⟩ := (hinv _).mp ⟨m, hm, rfl⟩
+      exact Or.inr ⟨a, ha, by rw [hea]⟩
+
+end DendroModel.C04
+
+namespace DendroModel.C04
+open DendroModel DendroModel.C04.Aux
+/-- sample: the unrooted tree `((t0,t1),t2,t3)` and the same tree seeded at the inner vertex, `(t0,t1,(t2,t3))` -/
+def Aux.exU : T := .node 0 none none none [.node 1 none none none [.node 2 (some 0) none none [], .node 3 (some 1) none none []],
+  .node 4 (some 2) none none [], .node 5 (some 3) none none []]
+def Aux.exV : T := .node 0 none none none [.node 2 (some 0) none none [], .node 3 (some 1) none none [],
+  .node 1 none none none [.node 4 (some 2) none none [], .node 5 (some 3) none none []]]
+example : T.toH (C01.encodeTree (some false) true true exU) = .node ([] ++ .node [.leaf 0, .leaf 1] :: [.leaf 2, .leaf 3])
+    ∧ T.toH (C01.encodeTree (some false) true true exV) = Hier.invertAt [] [.leaf 0, .leaf 1] [.leaf 2, .leaf 3]
+    ∧ Hier.GoodL ([] ++ .node [.leaf 0, .leaf 1] :: [.leaf 2, .leaf 3]) := by
+  refine ⟨rfl, rfl, ?_⟩
+  simp [Hier.GoodL, Hier.Good, Hier.mask, Hier.maskL]
+example : (edgeRecs (some false) exU).map (·.split) = [14, 2, 12, 4, 8, 0] := by decide
+example : (edgeRecs (some false) exV).map (·.split) = [14, 2, 4, 8, 12, 0] := by decide
 end DendroModel.C04
